@@ -258,8 +258,18 @@ func variantText(v revVariant) string {
 	for _, r := range v.Revs {
 		fmt.Fprintf(&sb, "  revision %s;\n", r)
 	}
+	if v.Sub != "" {
+		// a typedef that says which revision of the submodule it stands in
+		fmt.Fprintf(&sb, "  typedef td_%s { type string; default \"%s\"; }\n", v.Name, v.ID)
+	}
 	fmt.Fprintf(&sb, "  leaf %s { type string; }\n}\n", v.ID)
 	return sb.String()
+}
+
+// zuserText is a module that refers, through an import of the including
+// module, to the typedef its submodule defines.
+func zuserText(owner, sub string) string {
+	return fmt.Sprintf("module zuser {\n  namespace \"urn:zuser\";\n  prefix zuser;\n  import %s { prefix o; }\n  leaf zz { type o:td_%s; }\n}\n", owner, sub)
 }
 
 func importerText(i revImporter) string {
@@ -319,6 +329,13 @@ func runRevisions(c *c13Case, o *core.Outcome) {
 	for _, i := range c.Importers {
 		texts[i.Name] = importerText(i)
 	}
+	zuser := false
+	for _, i := range c.Importers {
+		if i.Include {
+			texts["zuser"] = zuserText(i.Name, i.Target)
+			zuser = true
+		}
+	}
 	byName := map[string]int{}
 	for _, v := range c.Variants {
 		byName[v.Name]++
@@ -350,6 +367,9 @@ func runRevisions(c *c13Case, o *core.Outcome) {
 			for k := range c.Importers {
 				spec.Ops = append(spec.Ops, world.Op{Op: "parse", Name: c.Importers[(k+oi)%len(c.Importers)].Name})
 			}
+		}
+		if zuser {
+			spec.Ops = append(spec.Ops, world.Op{Op: "parse", Name: "zuser"})
 		}
 		spec.Ops = append(spec.Ops, world.Op{Op: "process"})
 		res := world.Exec(spec)
@@ -471,6 +491,17 @@ func runRevisions(c *c13Case, o *core.Outcome) {
 					return
 				}
 				o.Count("probe.import_binding_checked", 1)
+				if z := ms.Modules["zuser"]; imp.Include && z != nil && len(res.Ops[len(res.Ops)-1].Errs) == 0 {
+					// the typedef of the included submodule, seen from a module that
+					// imports the including one, is that of the bound revision
+					if zz := yang.ToEntry(z).Dir["zz"]; zz != nil && zz.Type != nil {
+						if zz.Type.Default != want {
+							o.Fail("typedef-through-include", "order %v: %s includes %s (revision-date %q), bound to %s; a module importing %s sees the submodule's typedef of %s", orderIDs(c, order), imp.Name, name, imp.Rev, want, imp.Name, zz.Type.Default)
+							return
+						}
+						o.Count("probe.typedef_through_pinned_include_checked", 1)
+					}
+				}
 				fmt.Fprintf(&obs, "%s->%s@%s;", imp.Name, name, latestOf(acceptedIDs(acceptedList), want))
 			}
 		}
